@@ -88,6 +88,20 @@ func (checkC10) Gen(seed uint64, tier string) (*Scenario, error) {
 		}
 	} else {
 		plan.Pairs = 20
+		plan.MaxPerBlock = 120
+		for i := 0; i < 10; i++ {
+			plan.Heights = append(plan.Heights, w.Spec.First+uint32(rng.Intn(n)))
+		}
+		for _, name := range []string{"V20Dev", "V202", "V204", "V204Burn"} {
+			if h := w.Spec.Config.Act[name]; h >= w.Spec.First && h <= w.Tip() {
+				plan.Heights = append(plan.Heights, h)
+			}
+		}
+		for h := w.Spec.First; h <= w.Tip(); h++ {
+			if h%144 == 0 && h >= w.Spec.Config.Act["V20"] {
+				plan.Heights = append(plan.Heights, h)
+			}
+		}
 	}
 	pb, _ := json.Marshal(plan)
 	return &Scenario{Profile: &p, Spec: w.Spec, Plan: pb}, nil
@@ -261,11 +275,24 @@ func (checkC10) Run(env *Env, sc *Scenario) (*Violation, error) {
 				}
 			}
 			r.Tr.SetFaults(nf)
+			var diffDump *sim.Dump
+			r.OnCommit = func(hc uint32) {
+				if diffDump == nil {
+					if d := r.Heights[hc]; d != nil && ref.Heights[hc] != nil && d.Total != ref.Heights[hc].Total {
+						diffDump, _ = sim.TakeDump(r.RO(), true)
+					}
+				}
+			}
 			sqlFired := 0
+			actual := ""
 			r.SQL.Before = func(ev *sim.SQLEvent) error {
 				for _, p := range sp {
 					if r.BlockHeight == p.Height && r.Attempt[p.Height] == p.Attempt && r.BlockStmt == p.Idx && ev.Op != "begin" && ev.Op != "rollback" {
 						sqlFired++
+						if actual != "" {
+							actual += " + "
+						}
+						actual += ev.Caller + "/" + ev.Op
 						return sim.ErrInjected
 					}
 				}
@@ -326,9 +353,34 @@ func (checkC10) Run(env *Env, sc *Scenario) (*Violation, error) {
 			if viol != nil {
 				break
 			}
+			if len(nf) == 0 && actual != "" {
+				label = actual // the statement that was actually failed (indices shift after a restart)
+			}
 			if hh, msg := compareHeights(ref, r.Heights); msg != "" {
+				// The faulted replica was started on the reference database as of
+				// h-1, i.e. after a restart. A restart alone can change later results
+				// (C09's known finding): compare with a fault-free control started the same way.
+				ctl := sim.NewReplica(w, env.Dir("ctl"))
+				ctl.Follow, ctl.PerHeight = true, true
+				same := false
+				if sim.CopyDir(ck, ctl.Dir) == nil && ctl.Start() == nil {
+					env.Stats.Replicas++
+					env.Stats.Lifetimes++
+					ctl.RunTo(target)
+					ctl.Stop()
+					same = true
+					for hc, d := range r.Heights {
+						if c := ctl.Heights[hc]; d != nil && (c == nil || c.Total != d.Total) {
+							same = false
+						}
+					}
+				}
+				if same {
+					env.Stats.Probe("difference_is_restart_effect_not_fault(C09)")
+					continue
+				}
 				viol = &Violation{Prop: "C10", Oracle: "faulted-equals-fault-free", Signature: fmt.Sprintf("ledger differs after fault at %s: %s", label, msg),
-					Detail: fmt.Sprintf("single transient fault while applying height %d at %s (fired=%d, daemon exits: %q): height %d committed differing from the fault-free run: %s", h, label, nfired, exits, hh, msg)}
+					Detail: fmt.Sprintf("single transient fault while applying height %d at %s (fired=%d, daemon exits: %q): height %d committed differing from the fault-free run: %s%s", h, label, nfired, exits, hh, msg, explainAgainstCkpt(ref, hh, diffDump))}
 				break
 			}
 			if !reached {
